@@ -166,6 +166,9 @@ func scriptSummary(s sim.CaseScript, max int) map[string]any {
 }
 
 func owns(p *simProp, prop string) bool {
+	if o := os.Getenv("VERIF_OWNS"); o != "" { // debugging aid: judge other properties' oracles under this profile
+		return strings.Contains(o, prop)
+	}
 	for _, o := range p.Owns {
 		if o == prop {
 			return true
@@ -265,43 +268,47 @@ func runSimCorpus(t *testing.T, p *simProp) {
 	if f := os.Getenv("VERIF_REPLAY"); f != "" {
 		files = []string{f}
 	}
-	hooks := sim.Hooks{Oracles: func() []sim.Oracle { return []sim.Oracle{sim.NewSafety()} }}
-	if p.Hooks != nil {
-		hooks = p.Hooks()
-	}
 	for i, f := range files {
 		r, err := loadReplay(f)
 		if err != nil {
 			t.Fatalf("%s: %v", f, err)
 		}
-		var script sim.CaseScript
-		if err := json.Unmarshal(r.Script, &script); err != nil {
-			t.Fatalf("%s: %v", f, err)
-		}
-		sig, detail := "", ""
-		if len(r.History) > 0 && os.Getenv("VERIF_REPLAY") != "" {
-			// informational: the deterministic verdict of the oracles on the saved history
-			var hist []sim.Event
-			if err := json.Unmarshal(r.History, &hist); err == nil {
-				res := &sim.Result{Script: script, History: hist, Violations: sim.Judge(hist, hooks.Oracles()...)}
-				s, _ := judgeResult(t, p, res, f)
-				fmt.Printf("REJUDGE property=%s file=%s saved-history verdict=%q\n", p.ID, f, s)
-			}
-		}
-		tries := envInt("VERIF_REPLAY_TRIES", 3)
-		repro := 0
-		for k := 0; k < tries; k++ {
-			res := sim.RunScript(t, fmt.Sprintf("%s/r%d-%d", base, i, k), p.Profile, script, hooks)
-			s, d := judgeResult(t, p, res, f)
-			if s != "" {
-				repro++
-				if sig == "" {
-					sig, detail = s, d
-				}
-			}
-			os.RemoveAll(fmt.Sprintf("%s/r%d-%d", base, i, k))
-		}
-		fmt.Printf("REEXEC property=%s file=%s reproduced=%d/%d\n", p.ID, f, repro, tries)
-		corpusResult(t, p.ID, f, sig, detail)
+		runSimCorpusFile(t, p, base, i, f, r)
 	}
+}
+
+func runSimCorpusFile(t *testing.T, p *simProp, base string, i int, f string, r *Replay) {
+	hooks := sim.Hooks{Oracles: func() []sim.Oracle { return []sim.Oracle{sim.NewSafety()} }}
+	if p.Hooks != nil {
+		hooks = p.Hooks()
+	}
+	var script sim.CaseScript
+	if err := json.Unmarshal(r.Script, &script); err != nil {
+		t.Fatalf("%s: %v", f, err)
+	}
+	sig, detail := "", ""
+	if len(r.History) > 0 && os.Getenv("VERIF_REPLAY") != "" {
+		// informational: the deterministic verdict of the oracles on the saved history
+		var hist []sim.Event
+		if err := json.Unmarshal(r.History, &hist); err == nil {
+			res := &sim.Result{Script: script, History: hist, Violations: sim.Judge(hist, hooks.Oracles()...)}
+			s, _ := judgeResult(t, p, res, f)
+			fmt.Printf("REJUDGE property=%s file=%s saved-history verdict=%q\n", p.ID, f, s)
+		}
+	}
+	tries := envInt("VERIF_REPLAY_TRIES", 3)
+	repro := 0
+	for k := 0; k < tries; k++ {
+		res := sim.RunScript(t, fmt.Sprintf("%s/r%d-%d", base, i, k), p.Profile, script, hooks)
+		s, d := judgeResult(t, p, res, f)
+		if s != "" {
+			repro++
+			if sig == "" || (stats.IsKnown(p.ID, sig) && !stats.IsKnown(p.ID, s)) {
+				sig, detail = s, d
+			}
+		}
+		os.RemoveAll(fmt.Sprintf("%s/r%d-%d", base, i, k))
+	}
+	fmt.Printf("REEXEC property=%s file=%s reproduced=%d/%d\n", p.ID, f, repro, tries)
+	corpusResult(t, p.ID, f, sig, detail)
 }
